@@ -3,6 +3,7 @@ package otto
 import (
 	"fmt"
 	"math"
+	"math/big"
 	"regexp"
 	"strconv"
 	"unicode/utf16"
@@ -42,8 +43,9 @@ func numberToStringRadix(value Value, radix int) string {
 	}
 	// FIXME This is very broken
 	// Need to do proper radix conversion for floats, ...
-	// This truncates large floats (so bad).
-	return strconv.FormatInt(int64(float), radix)
+	// This drops the fraction.
+	integer, _ := new(big.Float).SetFloat64(float).Int(nil) // exact for every magnitude
+	return integer.Text(radix)
 }
 
 func (v Value) string() string {
